@@ -284,6 +284,16 @@ class Executor:
                 return v == want
             return app("eq", v, want)
         if k == "Range":
+            def bound(x):
+                if isinstance(x, dict):
+                    l = x.get("lit") or {}
+                    if isinstance(l.get("v"), int) and not isinstance(l.get("v"), bool):
+                        return l["v"]
+                return None
+            lo, hi = bound(p.get("lo")), bound(p.get("hi"))
+            if is_lit(v) and isinstance(v[1], int) and not isinstance(v[1], bool) and ("lo" not in p or lo is not None) and ("hi" not in p or hi is not None):
+                ok = (lo is None or v[1] >= lo) and (hi is None or (v[1] <= hi if p.get("inclusive", True) else v[1] < hi))
+                return ok
             return app("in_range", v, lit(str(p.get("lo"))), lit(str(p.get("hi"))))
         if k == "Tuple":
             if v[0] == "tuple" and len(v[1]) == len(p["pats"]):
@@ -331,7 +341,33 @@ class Executor:
             c2 = self._bind_fields(p, v, st, variant)
             return self._cand(cond, c2)
         if k == "Slice":
-            return app("slice_pat", v)
+            from .stdmodels import _concrete_elems
+            ce = _concrete_elems(v) if isinstance(v, tuple) and v and v[0] == "app" else None
+            before, after, mid = p.get("before", []), p.get("after", []), p.get("mid")
+            if ce is not None:
+                ce = list(ce)
+                if (mid is None and len(ce) != len(before) + len(after)) or len(ce) < len(before) + len(after):
+                    return False
+                cond = True
+                for sp, sv in zip(before, ce[:len(before)]):
+                    cond = self._cand(cond, self.match_pat(sp, sv, st))
+                for sp, sv in zip(after, ce[len(ce) - len(after):] if after else []):
+                    cond = self._cand(cond, self.match_pat(sp, sv, st))
+                if mid is not None:
+                    cond = self._cand(cond, self.match_pat(mid, app("array", *ce[len(before):len(ce) - len(after)]), st))
+                return cond
+            # symbolic sequence: the pattern fixes (or bounds) its length and names its elements
+            n_fixed = len(before) + len(after)
+            from .stdmodels import tlen
+            ln = tlen(v)
+            cond = app("eq", ln, lit(n_fixed)) if mid is None else tnot(app("lt", ln, lit(n_fixed))) if n_fixed else True
+            for i, sp in enumerate(before):
+                cond = self._cand(cond, self.match_pat(sp, app("index", v, lit(i)), st))
+            for i, sp in enumerate(after):
+                cond = self._cand(cond, self.match_pat(sp, app("index_from_end", v, lit(len(after) - 1 - i)), st))
+            if mid is not None:
+                cond = self._cand(cond, self.match_pat(mid, app("subslice", v, lit(len(before)), lit(len(after))), st))
+            return cond
         raise Unsupported("pattern kind %s" % k)
 
     def _cand(self, a, b):
@@ -562,9 +598,17 @@ class Executor:
 
     def assign(self, lhs, v, st, node):
         l = peel(lhs)
+        derefs = 0
         while l["k"] == "Unary" and l["op"] == "Deref":
             l = peel(l["e"])
+            derefs += 1
         if l["k"] == "Path" and l["res"]["k"] == "Local":
+            cur = st.env.get(l["res"]["lid"])
+            if derefs and isinstance(cur, tuple) and len(cur) == 3 and cur[0] == "sym" and cur[2] == "elem":
+                # `*slot = v` for the element a loop over `xs.iter_mut()` is visiting: a store into that sequence at the
+                # position being visited (the same effect as `xs[i] = v` in an index loop)
+                self.effect(st, "store_index", (("app", "iterated_by", (cur,)), cur, v), node=node)
+                return [(st, ("val", UNIT))]
             st.env[l["res"]["lid"]] = v
             return [(st, ("val", UNIT))]
         if l["k"] == "Field":
@@ -942,7 +986,12 @@ class Executor:
                     results.append(o[1])
             else:
                 exits.append(p)
-        e = self.effect(st, "foreach" if kind == "try_for_each" else kind, (itv,), node=node, loop=loop_id, elem=elem, paths=paths, exits=exits, results=results)
+        e = self.effect(st, "foreach", (itv,), node=node, loop=loop_id, elem=elem, paths=paths, exits=exits, results=results)
+        # `for slot in xs.iter_mut() { *slot = v }`: afterwards xs holds what was stored (like `xs[i] = v` in an index loop)
+        if paths and all(len([x for x in p["eff"] if x["k"] == "store_index" and x["args"][0] == ("app", "iterated_by", (elem,))]) == 1 for p in paths) and itv[0] == "iter":
+            stored = ("sym", next(self.counter), "after_loop:stored")
+            for k2 in list(st.env):
+                st.env[k2] = _subst_term(st.env[k2], itv[1], stored)
         unfiltered = itv[0] == "iter" and not any(isinstance(f, tuple) and f and f[0] in ("filter", "take_while", "skip_while", "filter_map", "flat_map", "take", "skip", "step_by") for f in itv[3])
         every_iteration = unfiltered and all(o[0] == "val" for _, o in finals) and bool(finals)
         # after the loop, loop-assigned locals are unknown — except counters: x = x + c on every iteration
@@ -976,6 +1025,57 @@ class Executor:
             s2.eff.extend(p["eff"])
             outs.append((s2, p["out"]))
         return outs, e
+
+    def _counted_loop(self, st, e, paths, init):
+        """A `while` whose condition makes it run exactly n times is the loop `for _ in 0..n`:
+             while c > 0 / c != 0 { c -= 1; .. }            (c starts at n, nothing else touches it)
+             while v.len() < n { v.push(..) once; .. }      (v starts empty, n is not changed)
+        The effect is rewritten in place to a `foreach` over 0..n; True when that happened."""
+        cont = [p for p in paths if p["out"][0] in ("val", "cont")]
+        leave = [p for p in paths if p["out"][0] == "brk"]
+        if not cont or len(leave) != 1 or any(x["k"] not in ("assume", "arm") for x in leave[0]["eff"]):
+            return False
+        def first_cond(p):
+            for x in p["eff"]:
+                if x["k"] == "assume":
+                    c, v = x["args"]
+                    neg = v != TRUE
+                    while c[0] == "app" and c[1] == "not":
+                        c, neg = c[2][0], not neg
+                    return c, not neg
+                if x["k"] != "arm":
+                    return None, None
+            return None, None
+        conds = {first_cond(p) for p in cont}
+        if len(conds) != 1:
+            return False
+        c, pos = next(iter(conds))
+        if c is None or c[0] != "app":
+            return False
+        op, a = c[1], c[2]
+        if not pos:
+            op = {"gt": "le", "lt": "ge", "ge": "lt", "le": "gt", "ne": "eq", "eq": "ne"}.get(op)
+        n_term = None
+        if op in ("gt", "ne") and len(a) == 2 and a[0] in init and a[1] == lit(0):
+            ctr = a[0]
+            if all((p.get("next") or {}).get(ctr) in (("app", "sub", (ctr, lit(1))),) for p in cont):
+                n_term = init[ctr]
+        elif op == "lt" and len(a) == 2 and a[0][0] == "app" and a[0][1] == "len" and a[0][2][0][0] == "obj":
+            vec = a[0][2][0]
+            is_push = lambda x: x["k"] == "call" and x["args"][0][1].endswith("::push") and len(x["args"]) == 3 and x["args"][1] == vec
+            if all(len([x for x in p["eff"] if is_push(x)]) == 1 for p in cont) and not any(
+                    x["k"] == "call" and len(x["args"]) > 1 and x["args"][1] == vec for x in st.eff[:-1]) and not _mentions_term(a[1], vec) and a[1] not in init:
+                n_term = a[1]
+        if n_term is None:
+            return False
+        rng = ("ctor", "std::ops::Range", None, (("start", lit(0)), ("end", n_term)))
+        e["k"] = "foreach"
+        e["args"] = (("iter", rng, "fwd", ()),)
+        e["elem"] = ("sym", next(self.counter), "elem")
+        e["paths"] = [dict(p, out=("val", UNIT)) for p in cont]
+        e["results"] = [UNIT for _ in cont]
+        e["counted_while"] = True
+        return True
 
     def _push_loop_as_collect(self, st, e, paths, loop_id):
         def is_push(x):
@@ -1054,9 +1154,12 @@ class Executor:
             else:
                 exits.append(p)
         e = self.effect(st, "loop", (), node=n, loop=loop_id, src=src, paths=paths, exits=exits, init=init)
+        counted = self._counted_loop(st, e, paths, init)
         for lid, name in lid_names:
             if lid in st.env:
                 st.env[lid] = ("sym", next(self.counter), "after_loop:" + name)
+        if counted:
+            self._push_loop_as_collect(st, e, e["paths"], loop_id)
         outs = [(st, ("val", UNIT))]
         if src == "Loop" and not any(p["out"][0] == "brk" for p in paths):
             outs = []        # `loop { .. }` without a `break` is only ever left through return / panic
